@@ -81,7 +81,7 @@ def cmdCache (j : Json) : Except String Json := do
       let ins := match getOpt l "inside" with | some (.str s) => some s | _ => none
       return ({ name := ← getStr l "name", hookedWith := hw, insideHooked := ins } : Load)
     let writes := match getOpt r "writes" with | some (.bool b) => b | _ => true
-    return ({ versions := fun n => (vlist.lookup n).getD 0, writes := writes, loads := loads } : Run)
+    return ({ versions := fun n => (vlist.lookup n).getD 0, writes := writes, loads := loads } : CacheRun)
   let (_, outs) := runHistory scope [] runs
   return jarr (outs.map fun o => jarr (o.map fun (n, c) =>
     jarr [jstr n, jnat c.version, match c.instr with | none => Json.null | some k => jstr k]))
